@@ -4,6 +4,7 @@ import pathlib
 
 from vf import q
 from vf.world import vfs
+from vf.world.subsec import SubSec
 
 from gwf import core, scheduling
 from gwf.backends.base import BackendStatus
@@ -68,11 +69,12 @@ def _q1a(i0, i1, i2, o0, o1, o2, e0, e1, e2, hs):
         return q.SKIP
     mi, mo, eo = [i0, i1, i2], [o0, o1, o2], [e0, e1, e2]
     t = Target(name="T", inputs=IN[:kin], outputs=OUT[:kout], options={}, working_dir="/vfs/p", spec="do it")
+    wrap = SubSec if q.SHARD.get("subsec") else (lambda x: x)
     cache = {}
     for i in range(kin):
-        cache[IN[i]] = mi[i]
+        cache[IN[i]] = wrap(mi[i])
     for j in range(kout):
-        cache[OUT[j]] = mo[j] if eo[j] else None
+        cache[OUT[j]] = wrap(mo[j]) if eo[j] else None
     fs = CachedFilesystem(cache=cache)
     sh, changed = _spec_hashes(hs, t)
     got_run = should_run(t, fs, sh)
@@ -184,11 +186,12 @@ def _q1c(ms, ma, mb, ea, eb, ba, bb, hs):
     if not (q.in_range(hs, 4) and q.in_range(ba, 2) and q.in_range(bb, 2)):
         return q.SKIP
     w = vfs.VFS()
-    w.add(P + "src", ms)
+    wrap = SubSec if q.SHARD.get("subsec") else (lambda x: x)
+    w.add(P + "src", wrap(ms))
     if ea:
-        w.add(P + "a", ma)
+        w.add(P + "a", wrap(ma))
     if eb:
-        w.add(P + "b", mb)
+        w.add(P + "b", wrap(mb))
     vfs.install(w)
     try:
         A = Target(name="A", inputs=["src"], outputs={"out": "a"}, options={}, working_dir="/vfs/p", spec="make a")
@@ -290,15 +293,16 @@ def _grid(n):
 
 
 QUERIES = [
-    {"name": "Q1a", "fn": q1a, "shards": {"quick": _grid(2), "thorough": _grid(3)}, "timeout": {"quick": 120, "thorough": 600},
-     "bound": "k_in,k_out in 0..2 (quick) / 0..3 (thorough); mtimes unbounded ints; existence of every output; 4 spec-hash situations"},
+    {"name": "Q1a", "fn": q1a, "shards": {"quick": _grid(2) + [dict(g, subsec=True) for g in _grid(2) if g["kin"] and g["kout"]], "thorough": _grid(3) + [dict(g, subsec=True) for g in _grid(3)]},
+     "timeout": {"quick": 240, "thorough": 900},
+     "bound": "k_in,k_out in 0..2 (quick) / 0..3 (thorough); mtimes unbounded symbolic ints, and - subsec shards - symbolic multiples of a quarter second that compare like reals but truncate under int(); existence of every output; 4 spec-hash situations"},
     {"name": "Q1b", "fn": q1b,
      "shards": {"quick": [dict(g, side=sd) for g in ({"kin": 0, "kout": 0}, {"kin": 1, "kout": 1}, {"kin": 2, "kout": 1}, {"kin": 1, "kout": 2}) for sd in ("in", "out")],
                 "thorough": [dict(g, side=sd) for g in _grid(2) for sd in ("in", "out")] + [{"kin": 1, "kout": 1, "side": "both"}, {"kin": 0, "kout": 0, "side": "both"}]},
      "timeout": {"quick": 240, "thorough": 1200},
      "bound": "(k_in,k_out) in {(0,0),(1,1),(2,1),(1,2)} (quick) / 0..2 squared (thorough); container shape catalogue of vf/props/C01.py:shapes(), "
               "varied on one side at a time (the other side flat list); thorough adds inputs x outputs shapes jointly for (1,1) and (0,0)"},
-    {"name": "Q1c", "fn": q1c, "shards": [{}], "timeout": {"quick": 300, "thorough": 900},
+    {"name": "Q1c", "fn": q1c, "shards": [{}, {"subsec": True}], "timeout": {"quick": 400, "thorough": 900},
      "bound": "chain src->A->B over the VFS; symbolic mtimes/existence; backend state unknown/completed per target; 4 hash situations"},
     {"name": "Q1d", "fn": q1d, "shards": [{}], "timeout": 120,
      "bound": "1 input, 1 output, two should_run calls on one CachedFilesystem, os.stat answering differently from the 2nd call on"},
